@@ -72,4 +72,26 @@ P_ALL(msm::active_state_switch_after_entry)
 P_ALL(msm::active_state_switch_after_transition_action)
 P_ALL(msm::active_state_switch_after_exit)
 P_ALL(msm::active_state_switch_before_transition)
+// the policy given through the `configuration` sequence (as eUML's configure_ does) while the front-end's own typedef stays the default
+struct p_cfg_after_exit { typedef msm::active_state_switch_after_exit active_state_switch_policy; };
+struct p_cfg_unrelated { typedef int no_message_queue_dummy; };
+template <template <typename...> class Back>
+struct p_cfg_machines
+{
+    struct Top_ : public msm::front::state_machine_def<Top_>
+    {
+        typedef mpl::vector<p_cfg_unrelated, p_cfg_after_exit> configuration;
+        struct A : p_st {}; struct B : p_st {};
+        typedef A initial_state;
+        struct transition_table : mpl::vector<
+            msm::front::Row<A, p_e1, B, p_act, p_grd>,
+            msm::front::Row<B, p_e2, A, msm::front::none, msm::front::none>
+        > {};
+        template <class FSM, class Event> void no_transition(Event const&, FSM&, int) {}
+    };
+    typedef Back<Top_> Top;
+};
+template <class W> void p_cfg_use() { typename W::Top m; m.start(); m.process_event(p_e1()); m.process_event(p_e2()); m.stop(); }
+template void p_cfg_use<p_cfg_machines<boost::msm::back::state_machine>>();
+template void p_cfg_use<p_cfg_machines<boost::msm::back11::state_machine>>();
 }
